@@ -7,6 +7,8 @@ pub struct Rendered {
     pub source: String,
     /// 1-based line of the construct under test
     pub line: usize,
+    /// 1-based line of the ill-typed neighbour (cell field `pre`), 0 if there is none
+    pub pre_line: usize,
 }
 
 #[derive(Clone, Debug)]
@@ -21,28 +23,71 @@ pub struct Cell {
     /// "castop", "binop", "ret", "cond") and statement context of the statement (ty::STMT_CONTEXTS)
     pub x: String,
     pub y: String,
+    /// syntactic form of the operands a / b ("var", "call", "callarg", "cast", "const", "elem", "elem2", "velem",
+    /// "mem", "mem2", "pmem", "lit", "paren", "len", "sizeof")
+    pub fa: String,
+    pub fb: String,
+    /// the second unit next to the construct ("none", "s_call", "s_bad", "s_bad_after", "f_ok", "f_badstmt",
+    /// "f_badret", "f_bad_after")
+    pub pre: String,
+    /// variant: "n:i[:tl|:tr]" (argument position), "body_before" / "body_after" / "pub" / "extern" (callee),
+    /// "len:X:Y" (spelling of the array lengths on the a side / the b side: lit, N, M), "name:<callee>", "t:pub" / "t:extern"
+    pub v: String,
 }
 
 impl Cell {
     pub fn from_json(v: &Value) -> Cell {
+        let s = |k: &str, d: &str| v[k].as_str().unwrap_or(d).to_string();
         Cell {
-            ctx: v["ctx"].as_str().unwrap_or("").to_string(),
-            op: v["op"].as_str().unwrap_or("").to_string(),
+            ctx: s("ctx", ""),
+            op: s("op", ""),
             a: ty::ty_from_json(&v["a"]),
             ka: v["ka"].as_u64().unwrap_or(0) as usize,
             b: ty::ty_from_json(&v["b"]),
             kb: v["kb"].as_u64().unwrap_or(0) as usize,
-            x: v["x"].as_str().unwrap_or("direct").to_string(),
-            y: v["y"].as_str().unwrap_or("top").to_string(),
+            x: s("x", "direct"),
+            y: s("y", "top"),
+            fa: s("fa", "var"),
+            fb: s("fb", "var"),
+            pre: s("pre", "none"),
+            v: s("v", ""),
         }
     }
     pub fn to_json(&self) -> Value {
-        json!({"ctx": self.ctx, "op": self.op, "a": self.a, "ka": self.ka, "b": self.b, "kb": self.kb, "x": self.x, "y": self.y})
+        json!({"ctx": self.ctx, "op": self.op, "a": self.a, "ka": self.ka, "b": self.b, "kb": self.kb, "x": self.x, "y": self.y,
+               "fa": self.fa, "fb": self.fb, "pre": self.pre, "v": self.v})
     }
     pub fn key(&self) -> String {
-        let base = format!("{} {} {}/{} {}/{}", self.ctx, if self.op.is_empty() { "-" } else { &self.op }, ty::key(&self.a), self.ka,
+        let mut key = format!("{} {} {}/{} {}/{}", self.ctx, if self.op.is_empty() { "-" } else { &self.op }, ty::key(&self.a), self.ka,
                 ty::key(&self.b), self.kb);
-        if self.x == "direct" && self.y == "top" { base } else { format!("{} @{}/{}", base, self.x, self.y) }
+        if !(self.x == "direct" && self.y == "top") {
+            key.push_str(&format!(" @{}/{}", self.x, self.y));
+        }
+        if !(self.fa == "var" && self.fb == "var") {
+            key.push_str(&format!(" ~{}/{}", self.fa, self.fb));
+        }
+        if self.pre != "none" {
+            key.push_str(&format!(" ^{}", self.pre));
+        }
+        if !self.v.is_empty() {
+            key.push_str(&format!(" #{}", self.v));
+        }
+        key
+    }
+    /// spelling of the array lengths on the a side and on the b side
+    fn spell(&self) -> (&str, &str) {
+        let parts: Vec<&str> = self.v.split(':').collect();
+        if parts.len() == 3 && parts[0] == "len" { (parts[1], parts[2]) } else { ("lit", "lit") }
+    }
+    /// (n, i, twice) of an argument-position variant "n:i[:tl|:tr]"
+    fn position(&self) -> Option<(usize, usize, &str)> {
+        let parts: Vec<&str> = self.v.split(':').collect();
+        if parts.len() < 2 {
+            return None;
+        }
+        let n = parts[0].parse().ok()?;
+        let i = parts[1].parse().ok()?;
+        Some((n, i, if parts.len() > 2 { parts[2] } else { "" }))
     }
 }
 
@@ -87,21 +132,105 @@ fn op_text(op: &str) -> &str {
     }
 }
 
+/// The pieces of the program under construction.
+#[derive(Default)]
+struct Parts {
+    /// declarations before the function
+    top: Vec<String>,
+    /// declarations after the function
+    after: Vec<String>,
+    params: Vec<String>,
+    locals: Vec<String>,
+}
+
 /// Declares the variable `name` of type `d` either as a local (lines) or, for types that only
 /// parameters can have, as a parameter of the enclosing function.
-fn place(d: &Ty, name: &str, n: u32, params: &mut Vec<String>, locals: &mut Vec<String>) {
+fn place(d: &Ty, name: &str, n: u32, sp: &str, parts: &mut Parts) {
     if d.is_empty() {
         return;
     }
     if ty::declarable(d) {
-        locals.extend(ty::declare(d, name, n));
+        parts.locals.extend(ty::declare_sp(d, name, n, sp));
     } else {
-        params.push(format!("{}: {}", name, ty::syntax(d)));
+        parts.params.push(format!("{}: {}", name, ty::syntax_sp(d, sp)));
+    }
+}
+
+/// The text of operand `name` (declared type `t`, `k` address markers) in the syntactic FORM `form`; whatever the
+/// form needs is declared.  Every form yields an expression of the same type as the plain variable would.
+fn operand(form: &str, t: &Ty, k: usize, name: &str, n: u32, sp: &str, parts: &mut Parts) -> String {
+    let ts = ty::syntax(t);
+    let lit = |i: u32| if ty::is_prim(t) { ty::literal(&t[0], n + i) } else { "0".to_string() };
+    match form {
+        "paren" => {
+            place(t, name, n, sp, parts);
+            format!("({})", amp(k, name))
+        }
+        "call" => {
+            parts.top.push(format!("fn mk_{name}() -> {ts};"));
+            format!("mk_{name}()")
+        }
+        "callarg" => {
+            parts.top.push(format!("fn mk2_{name}(v: i64, w: bool) -> {ts};"));
+            parts.locals.push("\tvar g64: i64 = 3i64;".to_string());
+            format!("mk2_{name}(g64, true)")
+        }
+        "cast" => {
+            let src = if ts == "i64" { "i32" } else { "i64" };
+            parts.locals.push(format!("\tvar c_{name}: {src} = {};", ty::literal(src, n)));
+            format!("(c_{name} as {ts})")
+        }
+        "const" => {
+            parts.top.push(format!("const K_{name}: {ts} = {};", lit(0)));
+            format!("K_{name}")
+        }
+        "elem" => {
+            parts.locals.push(format!("\tvar e_{name}: [2]{ts} = [{}, {}];", lit(0), lit(1)));
+            format!("e_{name}[1usize]")
+        }
+        "elem2" => {
+            parts.locals.push(format!("\tvar n_{name}: [2][2]{ts} = [[{}, {}], [{}, {}]];", lit(0), lit(1), lit(2), lit(3)));
+            format!("n_{name}[1usize][0usize]")
+        }
+        "velem" => {
+            parts.params.push(format!("v_{name}: []{ts}"));
+            format!("v_{name}[1usize]")
+        }
+        "mem" => {
+            parts.top.push(format!("struct F_{name} {{ m: {ts}, z: i64 }}"));
+            parts.locals.push(format!("\tvar f_{name}: F_{name} = F_{name} {{ m: {}, z: 0i64 }};", lit(0)));
+            format!("f_{name}.m")
+        }
+        "mem2" => {
+            parts.top.push(format!("struct F_{name} {{ m: {ts}, z: i64 }}"));
+            parts.top.push(format!("struct G_{name} {{ id: i64, inner: F_{name} }}"));
+            parts.locals.push(format!("\tvar g_{name}: G_{name} = G_{name} {{ id: 1i64, inner: F_{name} {{ m: {}, z: 0i64 }} }};", lit(0)));
+            format!("g_{name}.inner.m")
+        }
+        "pmem" => {
+            parts.top.push(format!("struct F_{name} {{ m: {ts}, z: i64 }}"));
+            parts.params.push(format!("q_{name}: &F_{name}"));
+            format!("q_{name}.m")
+        }
+        "lit" => lit(0),
+        "len" => {
+            parts.locals.push(format!("\tvar l_{name}: [3]i32 = [1i32, 2i32, 3i32];"));
+            format!("|l_{name}|")
+        }
+        "sizeof" => "|:i32|".to_string(),
+        _ => {
+            place(t, name, n, sp, parts);
+            amp(k, name)
+        }
     }
 }
 
 fn annotated(name: &str, t: &Ty) -> String {
-    if ty::declarable(t) { format!("var {}: {}", name, ty::syntax(t)) } else { format!("var {name}") }
+    annotated_sp(name, t, "lit")
+}
+
+fn annotated_sp(name: &str, t: &Ty, sp: &str) -> String {
+    if ty::declarable(t) { format!("var {}: {}", name, ty::syntax_sp(t, sp)) } else { format!("var {name}") }
 }
 
 fn i32t() -> Ty {
@@ -110,25 +239,25 @@ fn i32t() -> Ty {
 
 /// The offending expression of an expression-kind cell: (text, type as penne sees it, atomic?).
 /// Calls are made to a `callee` that returns i32 (declared in `top`).
-fn offending_expression(c: &Cell, top: &mut Vec<String>, locals: &mut Vec<String>) -> Option<(String, Ty, bool)> {
+fn offending_expression(c: &Cell, parts: &mut Parts) -> Option<(String, Ty, bool)> {
     match c.ctx.as_str() {
         "bin" => Some((format!("{} {} {}", amp(c.ka, "a"), op_text(&c.op), amp(c.kb, "b")), expr_type(&c.a, c.ka), false)),
         "un" => Some((format!("{}{}", op_text(&c.op), amp(c.ka, "a")), expr_type(&c.a, c.ka), false)),
         "as" => Some((format!("{} as {}", amp(c.ka, "a"), ty::syntax(&c.b)), c.b.clone(), false)),
         "cast" => Some((format!("cast {} as {}", amp(c.ka, "a"), ty::syntax(&c.b)), c.b.clone(), false)),
         "arg" => {
-            top.push(format!("fn callee(p: {}) -> i32;", ty::syntax(&c.b)));
+            parts.top.push(format!("fn callee(p: {}) -> i32;", ty::syntax(&c.b)));
             Some((format!("callee({})", amp(c.ka, "a")), i32t(), true))
         }
         "arg2" => {
-            locals.push("\tvar x0: i32 = 1i32;".to_string());
-            top.push(format!("fn callee(p0: i32, p: {}) -> i32;", ty::syntax(&c.b)));
+            parts.locals.push("\tvar x0: i32 = 1i32;".to_string());
+            parts.top.push(format!("fn callee(p0: i32, p: {}) -> i32;", ty::syntax(&c.b)));
             Some((format!("callee(x0, {})", amp(c.ka, "a")), i32t(), true))
         }
         "argn" => {
             let ps: Vec<String> = (0..c.kb).map(|i| format!("p{i}: i32")).collect();
-            top.push(format!("fn callee({}) -> i32;", ps.join(", ")));
-            locals.push("\tvar x: i32 = 1i32;".to_string());
+            parts.top.push(format!("fn callee({}) -> i32;", ps.join(", ")));
+            parts.locals.push("\tvar x: i32 = 1i32;".to_string());
             let args: Vec<&str> = (0..c.ka).map(|_| "x").collect();
             Some((format!("callee({})", args.join(", ")), i32t(), true))
         }
@@ -137,27 +266,26 @@ fn offending_expression(c: &Cell, top: &mut Vec<String>, locals: &mut Vec<String
 }
 
 /// The statement that puts expression `e` of type `te` into expression context `x`.
-fn statement_for(x: &str, e: &str, te: &Ty, atomic: bool, top: &mut Vec<String>, locals: &mut Vec<String>, ret: &mut Option<String>)
-    -> (String, bool) {
+fn statement_for(x: &str, e: &str, te: &Ty, atomic: bool, parts: &mut Parts, ret: &mut Option<String>) -> (String, bool) {
     let pe = if atomic { e.to_string() } else { format!("({e})") };
     let lit = if ty::is_prim(te) { ty::literal(&te[0], 7) } else { "0".to_string() };
     match x {
         "paren" => (format!("{} = ({});", annotated("r", te), e), false),
         "elem" => {
-            top.push(format!("fn sink_v(v: []{});", ty::syntax(te)));
+            parts.top.push(format!("fn sink_v(v: []{});", ty::syntax(te)));
             (format!("sink_v([{e}]);"), false)
         }
         "member" => {
-            top.push(format!("struct MX {{ m: {} }}", ty::syntax(te)));
-            top.push("fn sink_m(v: MX);".to_string());
+            parts.top.push(format!("struct MX {{ m: {} }}", ty::syntax(te)));
+            parts.top.push("fn sink_m(v: MX);".to_string());
             (format!("sink_m(MX {{ m: {e} }});"), false)
         }
         "arg" => {
-            top.push(format!("fn sink_a(v: {});", ty::syntax(te)));
+            parts.top.push(format!("fn sink_a(v: {});", ty::syntax(te)));
             (format!("sink_a({e});"), false)
         }
         "index" => {
-            locals.push("\tvar ix: [3]i32 = [1i32, 2i32, 3i32];".to_string());
+            parts.locals.push("\tvar ix: [3]i32 = [1i32, 2i32, 3i32];".to_string());
             (format!("var r: i32 = ix[{e}];"), false)
         }
         "castop" => {
@@ -170,7 +298,7 @@ fn statement_for(x: &str, e: &str, te: &Ty, atomic: bool, top: &mut Vec<String>,
             (format!("return: {e}"), true)
         }
         "cond" => {
-            locals.push("\tvar z: i32 = 0i32;".to_string());
+            parts.locals.push("\tvar z: i32 = 0i32;".to_string());
             (format!("if {pe} == {lit} {{ z = 1i32; }}"), false)
         }
         _ => (format!("{} = {};", annotated("r", te), e), false),
@@ -179,14 +307,14 @@ fn statement_for(x: &str, e: &str, te: &Ty, atomic: bool, top: &mut Vec<String>,
 
 /// Declarations for an assignment target of declared type `c.b` reached by the path shape `c.op`
 /// ("v:mem.mem", "p:pmem.mem", ...); returns the text of the place.
-fn path_target(c: &Cell, top: &mut Vec<String>, params: &mut Vec<String>, locals: &mut Vec<String>) -> String {
+fn path_target(c: &Cell, parts: &mut Parts) -> String {
     let (base, shape) = c.op.split_once(':').unwrap_or(("v", "mem"));
     let bt = ty::syntax(&c.b);
     // a value of the type of the place (for the initialisers of local targets)
     let bv = if ty::is_prim(&c.b) {
         ty::literal(&c.b[0], 3)
     } else {
-        locals.push("\tvar bv: i32 = 1i32;".to_string());
+        parts.locals.push("\tvar bv: i32 = 1i32;".to_string());
         "&bv".to_string()
     };
     let inn = format!("In {{ x: {bv}, y: 2i32 }}");
@@ -194,134 +322,236 @@ fn path_target(c: &Cell, top: &mut Vec<String>, params: &mut Vec<String>, locals
     let (tt, init, path): (String, String, &str) = match shape {
         "elem" => (format!("[2]{bt}"), format!("[{bv}, {bv}]"), "[1usize]"),
         "mem" => {
-            top.push(format!("struct In {{ x: {bt}, y: i32 }}"));
+            parts.top.push(format!("struct In {{ x: {bt}, y: i32 }}"));
             ("In".to_string(), inn.clone(), ".x")
         }
         "mem.mem" => {
-            top.push(format!("struct In {{ x: {bt}, y: i32 }}"));
-            top.push("struct Out { id: i32, inner: In }".to_string());
+            parts.top.push(format!("struct In {{ x: {bt}, y: i32 }}"));
+            parts.top.push("struct Out { id: i32, inner: In }".to_string());
             ("Out".to_string(), format!("Out {{ id: 1i32, inner: {inn} }}"), ".inner.x")
         }
         "mem.elem.mem" => {
-            top.push(format!("struct In {{ x: {bt}, y: i32 }}"));
-            top.push("struct Out { id: i32, items: [2]In }".to_string());
+            parts.top.push(format!("struct In {{ x: {bt}, y: i32 }}"));
+            parts.top.push("struct Out { id: i32, items: [2]In }".to_string());
             ("Out".to_string(), format!("Out {{ id: 1i32, items: [{inn}, {inn}] }}"), ".items[1usize].x")
         }
         "pmem.mem" => {
-            top.push(format!("struct In {{ x: {bt}, y: i32 }}"));
-            top.push("struct Out { id: i32, inner: &In }".to_string());
-            locals.push(format!("\tvar inn: In = {inn};"));
+            parts.top.push(format!("struct In {{ x: {bt}, y: i32 }}"));
+            parts.top.push("struct Out { id: i32, inner: &In }".to_string());
+            parts.locals.push(format!("\tvar inn: In = {inn};"));
             ("Out".to_string(), "Out { id: 1i32, inner: &inn }".to_string(), ".inner.x")
         }
         "mem.mem.elem" => {
-            top.push(format!("struct In {{ arr: [2]{bt}, y: i32 }}"));
-            top.push("struct Out { id: i32, inner: In }".to_string());
+            parts.top.push(format!("struct In {{ arr: [2]{bt}, y: i32 }}"));
+            parts.top.push("struct Out { id: i32, inner: In }".to_string());
             ("Out".to_string(), format!("Out {{ id: 1i32, inner: In {{ arr: [{bv}, {bv}], y: 2i32 }} }}"), ".inner.arr[1usize]")
         }
         "elem.mem" => {
-            top.push(format!("struct In {{ x: {bt}, y: i32 }}"));
+            parts.top.push(format!("struct In {{ x: {bt}, y: i32 }}"));
             ("[2]In".to_string(), format!("[{inn}, {inn}]"), "[1usize].x")
         }
         _ => {
             // "mem.elem"
-            top.push(format!("struct In {{ arr: [2]{bt}, y: i32 }}"));
+            parts.top.push(format!("struct In {{ arr: [2]{bt}, y: i32 }}"));
             ("In".to_string(), format!("In {{ arr: [{bv}, {bv}], y: 2i32 }}"), ".arr[1usize]")
         }
     };
     if base == "p" {
-        params.push(format!("o: &{tt}"));
+        parts.params.push(format!("o: &{tt}"));
     } else {
-        locals.push(format!("\tvar o: {tt} = {init};"));
+        parts.locals.push(format!("\tvar o: {tt} = {init};"));
     }
     format!("o{path}")
 }
 
+/// An argument that FITS a parameter declared `b` (for the other call of a "twice" variant).
+fn fitting_argument(b: &Ty, parts: &mut Parts) -> String {
+    match ty::head(b) {
+        "ptr" => {
+            parts.locals.extend(ty::declare(&b[1..].to_vec(), "okv", 9));
+            "&okv".to_string()
+        }
+        "slice" => {
+            let mut t = vec!["arr".to_string(), "3".to_string()];
+            t.extend(b[1..].iter().cloned());
+            parts.locals.extend(ty::declare(&t, "okv", 9));
+            "okv".to_string()
+        }
+        _ => {
+            parts.locals.extend(ty::declare(b, "okv", 9));
+            "okv".to_string()
+        }
+    }
+}
+
+/// The call(s) of an argument-position cell "n:i[:tl|:tr]": the argument at position i is `&^ka a` for a parameter
+/// declared `b`; the other parameters have the types u8, bool, i64, usize (in this order) and get fitting arguments.
+fn position_call(c: &Cell, parts: &mut Parts) -> String {
+    const OTHERS: [&str; 4] = ["u8", "bool", "i64", "usize"];
+    let (n, i, twice) = c.position().unwrap_or((1, 1, ""));
+    let mut ps = Vec::new();
+    let mut args = Vec::new();
+    let mut ok_args = Vec::new();
+    for j in 0..n {
+        if j + 1 == i {
+            ps.push(format!("p: {}", ty::syntax(&c.b)));
+            args.push(amp(c.ka, "a"));
+            if !twice.is_empty() {
+                ok_args.push(fitting_argument(&c.b, parts));
+            }
+        } else {
+            let t = OTHERS[j % 4];
+            ps.push(format!("p{j}: {t}"));
+            parts.locals.push(format!("\tvar o{j}: {t} = {};", ty::literal(t, j as u32 + 1)));
+            args.push(format!("o{j}"));
+            ok_args.push(format!("o{j}"));
+        }
+    }
+    if twice.is_empty() {
+        parts.top.push(format!("fn callee({});", ps.join(", ")));
+        format!("\tcallee({});", args.join(", "))
+    } else {
+        parts.top.push(format!("fn callee({}) -> i32;", ps.join(", ")));
+        let (l, r) = if twice == "tl" { (args, ok_args) } else { (ok_args, args) };
+        format!("\tvar r: i32 = callee({}) + callee({});", l.join(", "), r.join(", "))
+    }
+}
+
+/// Gives the declaration of `callee` the kind the variant asks for.
+fn apply_callee_kind(kind: &str, parts: &mut Parts) {
+    let Some(pos) = parts.top.iter().position(|l| l.starts_with("fn callee(")) else { return };
+    let head = parts.top[pos].trim_end_matches(';').to_string();
+    let body = if head.contains("-> i32") { " { return: 0i32 }" } else { " { }" };
+    match kind {
+        "body_before" => parts.top[pos] = format!("{head}{body}"),
+        "body_after" => {
+            parts.top.remove(pos);
+            parts.after.push(format!("{head}{body}"));
+        }
+        "pub" => parts.top[pos] = format!("pub {head};"),
+        "extern" => parts.top[pos] = format!("extern {head};"),
+        _ => {}
+    }
+}
+
+const PRE_LOCALS: [&str; 2] = ["\tvar w1: i64 = 1i64;", "\tvar w2: u16 = 2u16;"];
+const PRE_BAD: &str = "\tvar q0: i64 = w1 + w2;";
+
+/// The function that stands before / after the function of the construct; (lines, index of the ill-typed line).
+fn pre_function(pre: &str) -> (Vec<String>, Option<usize>) {
+    match pre {
+        "f_ok" => (
+            vec!["fn t0(h: u16) -> u16".into(), "{".into(), "\tvar g: u16 = h + 1u16;".into(), "\treturn: g".into(), "}".into()],
+            None,
+        ),
+        "f_badret" => (vec!["fn t0(h: i64) -> u16".into(), "{".into(), "\treturn: h".into(), "}".into()], Some(2)),
+        "f_badstmt" | "f_bad_after" => (
+            vec!["fn t0()".into(), "{".into(), PRE_LOCALS[0].into(), PRE_LOCALS[1].into(), PRE_BAD.into(), "}".into()],
+            Some(4),
+        ),
+        _ => (Vec::new(), None),
+    }
+}
+
 pub fn render(c: &Cell) -> Rendered {
-    let mut top: Vec<String> = Vec::new(); // declarations before the function
-    let mut params: Vec<String> = Vec::new();
-    let mut locals: Vec<String> = Vec::new();
+    let mut parts = Parts::default();
     let mut ret: Option<String> = None; // declared return type
     let construct: String;
     #[allow(unused_assignments)]
     let mut construct_is_return = false;
     let mut construct_is_top = false;
+    let (spa, spb) = c.spell();
+    let (spa, spb) = (spa.to_string(), spb.to_string());
+    if spa != "lit" || spb != "lit" {
+        parts.top.extend(ty::LEN_CONSTS.iter().map(|s| s.to_string()));
+    }
     match c.ctx.as_str() {
         "bin" => {
-            place(&c.a, "a", 1, &mut params, &mut locals);
-            place(&c.b, "b", 4, &mut params, &mut locals);
+            let ea = operand(&c.fa, &c.a, c.ka, "a", 1, &spa, &mut parts);
+            let eb = operand(&c.fb, &c.b, c.kb, "b", 4, &spb, &mut parts);
             let rt = expr_type(&c.a, c.ka);
-            construct = format!("\t{} = {} {} {};", annotated("r", &rt), amp(c.ka, "a"), op_text(&c.op), amp(c.kb, "b"));
+            construct = format!("\t{} = {} {} {};", annotated("r", &rt), ea, op_text(&c.op), eb);
         }
         "cmp" => {
-            place(&c.a, "a", 1, &mut params, &mut locals);
-            place(&c.b, "b", 4, &mut params, &mut locals);
-            locals.push("\tvar z: i32 = 0i32;".to_string());
-            construct = format!("\tif {} {} {} {{ z = 1i32; }}", amp(c.ka, "a"), op_text(&c.op), amp(c.kb, "b"));
+            let ea = operand(&c.fa, &c.a, c.ka, "a", 1, &spa, &mut parts);
+            let eb = operand(&c.fb, &c.b, c.kb, "b", 4, &spb, &mut parts);
+            parts.locals.push("\tvar z: i32 = 0i32;".to_string());
+            construct = format!("\tif {} {} {} {{ z = 1i32; }}", ea, op_text(&c.op), eb);
         }
         "un" => {
-            place(&c.a, "a", 1, &mut params, &mut locals);
+            let mut ea = operand(&c.fa, &c.a, c.ka, "a", 1, &spa, &mut parts);
+            if ea.starts_with('|') {
+                // `-|x|` is not in the grammar (E300): the length / size operand of a unary operator is parenthesised
+                ea = format!("({ea})");
+            }
             let rt = expr_type(&c.a, c.ka);
-            construct = format!("\t{} = {}{};", annotated("r", &rt), op_text(&c.op), amp(c.ka, "a"));
+            construct = format!("\t{} = {}{};", annotated("r", &rt), op_text(&c.op), ea);
         }
         "as" => {
-            place(&c.a, "a", 1, &mut params, &mut locals);
-            construct = format!("\t{} = {} as {};", annotated("r", &c.b), amp(c.ka, "a"), ty::syntax(&c.b));
+            let ea = operand(&c.fa, &c.a, c.ka, "a", 1, &spa, &mut parts);
+            construct = format!("\t{} = {} as {};", annotated("r", &c.b), ea, ty::syntax(&c.b));
         }
         "cast" => {
-            place(&c.a, "a", 1, &mut params, &mut locals);
-            construct = format!("\t{} = cast {} as {};", annotated("r", &c.b), amp(c.ka, "a"), ty::syntax(&c.b));
+            let ea = operand(&c.fa, &c.a, c.ka, "a", 1, &spa, &mut parts);
+            construct = format!("\t{} = cast {} as {};", annotated("r", &c.b), ea, ty::syntax(&c.b));
         }
         "assign" => {
-            place(&c.a, "a", 1, &mut params, &mut locals);
-            place(&c.b, "b", 4, &mut params, &mut locals);
-            construct = format!("\t{} = {};", amp(c.kb, "b"), amp(c.ka, "a"));
+            let ea = operand(&c.fa, &c.a, c.ka, "a", 1, &spa, &mut parts);
+            place(&c.b, "b", 4, &spb, &mut parts);
+            construct = format!("\t{} = {};", amp(c.kb, "b"), ea);
         }
         "assignp" => {
-            place(&c.a, "a", 1, &mut params, &mut locals);
-            let target = path_target(c, &mut top, &mut params, &mut locals);
+            place(&c.a, "a", 1, &spa, &mut parts);
+            let target = path_target(c, &mut parts);
             construct = format!("\t{}{} = {};", "&".repeat(c.kb), target, amp(c.ka, "a"));
         }
         "init" => {
-            place(&c.a, "a", 1, &mut params, &mut locals);
-            construct = format!("\t{} = {};", annotated("r", &c.b), amp(c.ka, "a"));
+            let ea = operand(&c.fa, &c.a, c.ka, "a", 1, &spa, &mut parts);
+            construct = format!("\t{} = {};", annotated_sp("r", &c.b, &spb), ea);
         }
         "member" => {
-            place(&c.a, "a", 1, &mut params, &mut locals);
-            top.push(format!("struct M {{ m: {} }}", ty::syntax(&c.b)));
-            construct = format!("\tvar r: M = M {{ m: {} }};", amp(c.ka, "a"));
+            let ea = operand(&c.fa, &c.a, c.ka, "a", 1, &spa, &mut parts);
+            parts.top.push(format!("struct M {{ m: {} }}", ty::syntax_sp(&c.b, &spb)));
+            construct = format!("\tvar r: M = M {{ m: {} }};", ea);
         }
         "const" => {
             construct = format!("const K: {} = {};", ty::syntax(&c.b), ty::literal(&c.a[0], 1));
             construct_is_top = true;
         }
         "elem" => {
-            place(&c.a, "a", 1, &mut params, &mut locals);
-            place(&c.b, "b", 4, &mut params, &mut locals);
+            let ea = operand(&c.fa, &c.a, c.ka, "a", 1, &spa, &mut parts);
+            let eb = operand(&c.fb, &c.b, c.kb, "b", 4, &spb, &mut parts);
             let rt = vec!["arr".to_string(), "2".to_string()].into_iter().chain(c.a.iter().cloned()).collect::<Ty>();
-            construct = format!("\t{} = [a, b];", annotated("r", &rt));
+            construct = format!("\t{} = [{}, {}];", annotated("r", &rt), ea, eb);
         }
         "arg" => {
-            place(&c.a, "a", 1, &mut params, &mut locals);
-            top.push(format!("fn callee(p: {});", ty::syntax(&c.b)));
-            construct = format!("\tcallee({});", amp(c.ka, "a"));
+            let ea = operand(&c.fa, &c.a, c.ka, "a", 1, &spa, &mut parts);
+            parts.top.push(format!("fn callee(p: {});", ty::syntax_sp(&c.b, &spb)));
+            construct = format!("\tcallee({});", ea);
         }
         "arg2" => {
-            place(&c.a, "a", 1, &mut params, &mut locals);
-            locals.push("\tvar x0: i32 = 1i32;".to_string());
-            top.push(format!("fn callee(p0: i32, p: {});", ty::syntax(&c.b)));
-            construct = format!("\tcallee(x0, {});", amp(c.ka, "a"));
+            let ea = operand(&c.fa, &c.a, c.ka, "a", 1, &spa, &mut parts);
+            parts.locals.push("\tvar x0: i32 = 1i32;".to_string());
+            parts.top.push(format!("fn callee(p0: i32, p: {});", ty::syntax_sp(&c.b, &spb)));
+            construct = format!("\tcallee(x0, {});", ea);
+        }
+        "argp" => {
+            place(&c.a, "a", 1, &spa, &mut parts);
+            construct = position_call(c, &mut parts);
         }
         "argn" => {
             let ps: Vec<String> = (0..c.kb).map(|i| format!("p{i}: i32")).collect();
-            top.push(format!("fn callee({});", ps.join(", ")));
-            locals.push("\tvar x: i32 = 1i32;".to_string());
+            parts.top.push(format!("fn callee({});", ps.join(", ")));
+            parts.locals.push("\tvar x: i32 = 1i32;".to_string());
             let args: Vec<&str> = (0..c.ka).map(|_| "x").collect();
             construct = format!("\tcallee({});", args.join(", "));
         }
         "ret" => {
-            place(&c.a, "a", 1, &mut params, &mut locals);
-            ret = Some(ty::syntax(&c.b));
-            construct = format!("\treturn: {}", amp(c.ka, "a"));
+            let ea = operand(&c.fa, &c.a, c.ka, "a", 1, &spa, &mut parts);
+            if ty::head(&c.b) != "void" {
+                ret = Some(ty::syntax_sp(&c.b, &spb));
+            }
+            construct = format!("\treturn: {}", ea);
             construct_is_return = true;
         }
         other => {
@@ -331,38 +561,124 @@ pub fn render(c: &Cell) -> Rendered {
     let mut construct = construct;
     if c.x != "direct" {
         // the offending expression in an expression context (the declarations of the direct form are dropped)
-        top.retain(|l| !l.starts_with("fn callee("));
-        if let Some((e, te, atomic)) = offending_expression(c, &mut top, &mut locals) {
-            let (stmt, is_ret) = statement_for(&c.x, &e, &te, atomic, &mut top, &mut locals, &mut ret);
+        parts.top.retain(|l| !l.starts_with("fn callee("));
+        if let Some((e, te, atomic)) = offending_expression(c, &mut parts) {
+            let (stmt, is_ret) = statement_for(&c.x, &e, &te, atomic, &mut parts, &mut ret);
             construct = format!("\t{stmt}");
             construct_is_return = is_ret;
         }
     }
+    if matches!(c.v.as_str(), "body_before" | "body_after" | "pub" | "extern") {
+        apply_callee_kind(&c.v, &mut parts);
+    }
+    if let Some(name) = c.v.strip_prefix("name:") {
+        // the callee bears a name the tool chain declares itself (libc functions used by the code generator)
+        for l in parts.top.iter_mut() {
+            if l.starts_with("fn callee(") {
+                *l = l.replacen("fn callee(", &format!("fn {name}("), 1);
+            }
+        }
+        construct = construct.replace("callee(", &format!("{name}("));
+    }
+    // the declared variable `r` of an initialisation is stored in a struct member afterwards; the same member is
+    // assigned again in the same function (member1) or in a SECOND function (member2)
+    let mut stmt_after_construct: Vec<String> = Vec::new();
+    if (c.v == "member1" || c.v == "member2") && c.ctx == "init" && ty::is_prim(&c.b) {
+        let bt = ty::syntax(&c.b);
+        let lit = ty::literal(&c.b[0], 5);
+        parts.top.push(format!("struct PM {{ m: {bt}, z: i64 }}"));
+        parts.locals.push(format!("\tvar pm: PM = PM {{ m: {lit}, z: 0i64 }};"));
+        stmt_after_construct.push("\tpm.m = r;".to_string());
+        if c.v == "member1" {
+            stmt_after_construct.push(format!("\tpm.m = {lit};"));
+        } else {
+            parts.after.extend(["fn u2()".to_string(), "{".to_string(), format!("\tvar pm: PM = PM {{ m: {lit}, z: 0i64 }};"),
+                                format!("\tpm.m = {lit};"), "}".to_string()]);
+        }
+    }
+    let t_flags = match c.v.as_str() {
+        "t:pub" => "pub ",
+        "t:extern" => "extern ",
+        _ => "",
+    };
     if c.y != "top" && !construct_is_top && !construct_is_return {
-        locals.extend(ty::CTX_LOCALS.iter().map(|s| s.to_string()));
+        parts.locals.extend(ty::CTX_LOCALS.iter().map(|s| s.to_string()));
         construct = format!("\t{}", ty::in_stmt_ctx(&c.y, &construct, "c"));
     }
+    // the second unit: statements before / after the construct, a function before / after `t`
+    let mut stmt_before: Option<String> = None;
+    let mut stmt_after: Option<String> = None;
+    match c.pre.as_str() {
+        "s_call" => {
+            parts.top.push("fn pre_sink(u: i64, w: u16);".to_string());
+            parts.locals.extend(PRE_LOCALS.iter().map(|s| s.to_string()));
+            stmt_before = Some("\tpre_sink(w1, w2);".to_string());
+        }
+        "s_bad" => {
+            parts.locals.extend(PRE_LOCALS.iter().map(|s| s.to_string()));
+            stmt_before = Some(PRE_BAD.to_string());
+        }
+        "s_bad_after" => {
+            parts.locals.extend(PRE_LOCALS.iter().map(|s| s.to_string()));
+            stmt_after = Some(PRE_BAD.to_string());
+        }
+        _ => {}
+    }
+    let (pre_fn, pre_fn_bad) = pre_function(&c.pre);
     let mut seen = std::collections::HashSet::new();
-    locals.retain(|l| seen.insert(l.clone()));
+    parts.locals.retain(|l| seen.insert(l.clone()));
+    let mut seen_top = std::collections::HashSet::new();
+    parts.top.retain(|l| seen_top.insert(l.clone()));
     let mut lines: Vec<String> = ty::PRELUDE.lines().map(|s| s.to_string()).collect();
-    lines.extend(top);
+    lines.extend(parts.top);
     let mut line = 0;
+    let mut pre_line = 0;
     if construct_is_top {
         lines.push(construct.clone());
         line = lines.len();
     }
+    if c.pre != "f_bad_after" && !pre_fn.is_empty() {
+        if let Some(i) = pre_fn_bad {
+            pre_line = lines.len() + i + 1;
+        }
+        lines.extend(pre_fn.iter().cloned());
+    }
     let head = match &ret {
-        Some(r) => format!("fn t({}) -> {}", params.join(", "), r),
-        None => format!("fn t({})", params.join(", ")),
+        Some(r) => format!("{}fn t({}) -> {}", t_flags, parts.params.join(", "), r),
+        None => format!("{}fn t({})", t_flags, parts.params.join(", ")),
     };
     lines.push(head);
     lines.push("{".to_string());
-    lines.extend(locals);
+    lines.extend(parts.locals);
+    if let Some(s) = stmt_before {
+        lines.push(s);
+        if c.pre == "s_bad" {
+            pre_line = lines.len();
+        }
+    }
     if !construct_is_top {
+        if construct_is_return {
+            if let Some(s) = stmt_after.take() {
+                // nothing can follow the return value: the neighbour stands before it
+                lines.push(s);
+                pre_line = lines.len();
+            }
+        }
         lines.push(construct);
         line = lines.len();
+        lines.extend(stmt_after_construct);
     }
-    let _ = construct_is_return;
+    if let Some(s) = stmt_after {
+        lines.push(s);
+        pre_line = lines.len();
+    }
     lines.push("}".to_string());
-    Rendered { source: lines.join("\n") + "\n", line }
+    if c.pre == "f_bad_after" {
+        if let Some(i) = pre_fn_bad {
+            pre_line = lines.len() + i + 1;
+        }
+        lines.extend(pre_fn.iter().cloned());
+    }
+    lines.extend(parts.after);
+    Rendered { source: lines.join("\n") + "\n", line, pre_line }
 }
